@@ -6,7 +6,7 @@ CFG = {'assumptions': ['ids unbounded nat',
                  'probe terms bounded to depth 3 / 36 terms in the observation only'],
  'corr_is_violation': True,
  'harness': [{'bin': 'h_egg', 'extra': ['--prop', 'C01'], 'name': 'h_egg', 'prefix': 'cases_egg'}],
- 'link_only': 'rule matching, functions with lattice merges and relations inside the same sessions '
+ 'link_only': 'still link-only: set on constructor tables, subsume, function applications nested in action patterns, containers; rule matching, functions with lattice merges and relations inside the same sessions '
               '(executable model compared with the engine after every command); extraction landing in the '
               'same class; (check ..) as the observer',
  'model_targets': ['Egg/Rules.vo'],
@@ -14,8 +14,8 @@ CFG = {'assumptions': ['ids unbounded nat',
  'theorem_backed': 'for every term-level command history over constructor tables: run terminates without '
                    'panic (rebuild fuel suffices), soundness (no invented equality), completeness (no missed '
                    'equality) w.r.t. the congruence closure of the asserted unions, UnionId merge agrees '
-                   "with the union-find's choice; for every program of the rule interpreter in the constructor fragment (prog_ctor_okb): every state reached is the result of a term-level history (c01_rules_history/stepwise), hence c01_rules_sound/complete/iff",
- 'tier_a': ['UFSeq', 'MergeArms', 'BridgeFns'],
+                   "with the union-find's choice; for every program of the rule interpreter in the constructor fragment (prog_ctor_okb): every state reached is the result of a term-level history (c01_rules_history/stepwise), hence c01_rules_sound/complete/iff; MIXED signatures (any sg; fragment prog_mixed_okb: expr/union over constructor patterns, set/delete on non-constructor tables, panic, unrestricted rule bodies): c01_mixed_rebuild_proj, c01_mixed_rules_history/stepwise/sound/complete/iff on constructor terms; rebuild-loop control regenerated from the source (gen/ParFacts.v): c01_source_loop_exit, c01_rebuild_fix, c01_source_run_ok/sound/complete, c01_capped_loop_refuted, c01_source_loop_order, c01_source_break_iff_nothing_changed, c01_source_rebuild_guards; c01_rebuild_pass_bound",
+ 'tier_a': ['UFSeq', 'MergeArms', 'BridgeFns', 'ParFacts.rebuild_loop_exit_condition', 'ParFacts.rebuild_loop_order', 'ParFacts.rebuild_break_flags', 'ParFacts.rebuild_guard_run_rules', 'ParFacts.rebuild_guard_flush'],
  'trusted': ['translator /verif/translator: gen/UFSeq.v (union-find), gen/MergeArms.v (UnionId=min, Old, '
              'New), gen/BridgeFns.v (combine_subsumed) are regenerated from the source on every run and used '
              'by Egg/Model.v',
